@@ -1,4 +1,8 @@
-//! C11: replay into libwild's `thunks::assign_thunk_blocks`.
+//! C11: replay into libwild's `thunks::assign_thunk_blocks`, or (records with "parts") into
+//! `ThunkLayoutBuilder::compute_non_primary_text_size` + the real output order of executable parts.
+//!
+//!   {"parts":[[section name, alignment exponent, size],..],"primary":size}
+//!     -> {"non_primary_text_size":n,"primary_part":id,"part_ids":[..],"output_order":[part id,..]}
 //!
 //!   {"objects":[[start,end],..],"range":R}
 //!     -> {"num_blocks":n,
@@ -12,7 +16,29 @@ use libwild::verif_api as api;
 use serde_json::Value;
 use serde_json::json;
 
+fn handle_parts(case: &Value) -> Result<Value, String> {
+    let mut parts = Vec::new();
+    for p in get_array(case, "parts")? {
+        let t = p.as_array().ok_or("part must be [name,exponent,size]")?;
+        if t.len() != 3 {
+            return Err("part must be [name,exponent,size]".into());
+        }
+        let name = t[0].as_str().ok_or("part name must be a string")?.to_owned();
+        parts.push((name, as_u64(&t[1])? as u8, as_u64(&t[2])?));
+    }
+    let r = api::aarch64_exec_parts(&parts, get_u64(case, "primary")?)?;
+    Ok(json!({
+        "non_primary_text_size": r.non_primary_text_size,
+        "primary_part": r.primary_part,
+        "part_ids": r.part_ids,
+        "output_order": r.output_order,
+    }))
+}
+
 pub fn handle(case: &Value) -> Result<Value, String> {
+    if case.get("parts").is_some() {
+        return handle_parts(case);
+    }
     let range = get_u64(case, "range")?;
     let mut objects = Vec::new();
     for o in get_array(case, "objects")? {
